@@ -159,6 +159,38 @@ def run(tier):
     rep.check(okstyle, "quoted-is-string", "parse_from_cow_and_metadata", "a non-plain scalar no longer returns String(v) before any type resolution runs",
               site=pfm.span)
 
+    # (a') the untagged reading (parse_from_cow: the type is guessed from the text) is reached only when the caller gave no tag: every
+    # call of it is dominated by the None edge of a test on the `tag` parameter itself.  A test on something derived from the tag (a
+    # filtered or mapped option) lets some tagged scalars - '!' (the non-specific tag forces a string), '!local', '!!str' - be typed
+    # from their content.
+    guess = [(bb, t) for bb, t, ck, fr in pfm.calls() if ck == SC + "::parse_from_cow"]
+    rep.floor("calls of the untagged resolver in parse_from_cow_and_metadata", len(guess), 1)
+    for bb, t in guess:
+        ok = False
+        seen = []
+        for d in pfm.dominators().get(bb, ()):
+            tt = pfm.blocks[d]["term"]
+            if tt["k"] != "switch":
+                continue
+            e = cfg.expr_operand(pfm, tt["discr"], 8)
+            m, other = cfg.switch_edge_blocks(pfm, d)
+            none_edge = None
+            if e == ("discr", ("param", 3)):
+                none_edge = m.get(0, other if 1 in m else None)
+            elif e[0] == "call" and e[1] in ("std::option::Option::is_none", "std::option::Option::is_some") and len(e[2]) == 1 \
+                    and cfg.strip_reborrow(e[2][0]) in (("param", 3), ("ref", ("param", 3))):
+                none_edge = other if e[1].endswith("is_none") else m.get(0)
+            else:
+                if "discr(" in cfg.expr_str(e) or "is_none" in cfg.expr_str(e) or "is_some" in cfg.expr_str(e):
+                    seen.append(cfg.expr_str(e)[:120])
+                continue
+            if none_edge is not None and (bb == none_edge or cfg.dominated_by_edge(pfm, bb, d, none_edge)):
+                ok = True
+        rep.check(ok, "untagged-reading-only-without-a-tag", "parse_from_cow_and_metadata->parse_from_cow@%s" % ("bb%d" % bb if len(guess) > 1 else "call"),
+                  "the text-based guess (parse_from_cow) is reached on a path where the `tag` argument itself was not found to be None: a scalar "
+                  "that carries a tag ('!', a local tag, !!str) can be typed from its content instead of staying a string", site=site(pfm, t["sp"]),
+                  detail={"other_option_tests_on_the_way": seen[:3]})
+
     # (b) tag arms
     sm = string_matches(pfm)
     lits = {l: (tt, ft) for l, bb, tt, ft in sm}
